@@ -5,6 +5,7 @@ package main
 
 import (
 	"fmt"
+	"go/token"
 	"sort"
 	"strings"
 
@@ -701,4 +702,104 @@ func (c *Check) packageState(rule string) {
 		})
 	}
 	c.floor(rule, n, 1, "writes of package-level variables")
+}
+
+// rendezvousChannels: hand-offs that are correct only because sender and
+// receiver meet. The instances are frozen with their reason; a second,
+// derived family needs no table: a channel on which one goroutine both sends
+// and receives (request and grant on the same channel) must be unbuffered, or
+// that goroutine can take back its own message.
+var rendezvousTable = []struct{ structName, field, reason string }{
+	{"peer", "transitionCh", "carries the FSM's transition request and the manager's grant; with a buffer the requesting FSM receives its own request back and grants itself the transition, bypassing the manager's one-Established and collision checks"},
+	{"peer", "errorCh", "the FSM goes on to its next transition request only after the manager has taken the error, so damping is decided before that request is answered"},
+	{"peer", "inConnCh", "an accepted connection belongs to the sender (which closes it when the peer is stopping) until the manager takes it; a connection parked in a buffer is owned by nobody when the peer stops"},
+}
+
+func (c *Check) rendezvousChannels(rule string, fields ...string) {
+	p := c.P
+	cf := p.chanFlow()
+	want := map[string]bool{}
+	for _, f := range fields {
+		want[f] = true
+	}
+	unbuffered := func(m *ssa.MakeChan) bool {
+		cst, ok := m.Size.(*ssa.Const)
+		return ok && cst.Value != nil && cst.Int64() == 0
+	}
+	for _, r := range rendezvousTable {
+		if len(want) > 0 && !want[r.field] {
+			continue
+		}
+		sites := map[*ssa.MakeChan]bool{}
+		for _, node := range []string{"F:" + r.structName + "." + r.field, "F:" + r.structName + "." + r.field + "[]"} {
+			for m := range cf.pts[node] {
+				sites[m] = true
+			}
+		}
+		if len(sites) == 0 {
+			c.undecided(rule, "", "channel "+r.structName+"."+r.field, "-", "no creation site of this channel found")
+			continue
+		}
+		for m := range sites {
+			c.require(unbuffered(m), rule, p.Name(m.Parent()), "channel "+r.structName+"."+r.field, p.InstrPos(m), "rendezvous (unbuffered) channel: "+r.reason)
+		}
+	}
+	if len(want) > 0 {
+		return
+	}
+	// derived: same goroutine root sends and receives on the channel
+	type dirs struct{ send, recv bool }
+	use := map[*ssa.MakeChan]map[string]*dirs{}
+	rootsOf := map[*ssa.Function][]string{}
+	for _, r := range p.roots() {
+		for f := range r.Funcs {
+			rootsOf[f] = append(rootsOf[f], r.Name)
+		}
+	}
+	note := func(fn *ssa.Function, ch ssa.Value, send bool) {
+		for _, m := range cf.sites(ch) {
+			for _, rn := range rootsOf[fn] {
+				if rn == "API" {
+					continue
+				}
+				if use[m] == nil {
+					use[m] = map[string]*dirs{}
+				}
+				if use[m][rn] == nil {
+					use[m][rn] = &dirs{}
+				}
+				if send {
+					use[m][rn].send = true
+				} else {
+					use[m][rn].recv = true
+				}
+			}
+		}
+	}
+	for _, fn := range p.AllFuncs {
+		ownInstrs(fn, func(in ssa.Instruction) {
+			switch x := in.(type) {
+			case *ssa.Send:
+				note(fn, x.Chan, true)
+			case *ssa.UnOp:
+				if x.Op == token.ARROW {
+					note(fn, x.X, false)
+				}
+			case *ssa.Select:
+				for _, ss := range x.States {
+					note(fn, ss.Chan, ss.Send != nil)
+				}
+			}
+		})
+	}
+	n := 0
+	for m, byRoot := range use {
+		for rn, d := range byRoot {
+			if d.send && d.recv {
+				n++
+				c.require(unbuffered(m), rule, p.Name(m.Parent()), "channel "+cf.keys[m]+" (two-way in "+rn+")", p.InstrPos(m), "goroutine "+rn+" both sends and receives on this channel: it must be unbuffered, or the goroutine can receive its own message")
+			}
+		}
+	}
+	c.floor(rule, n, 1, "channels used in both directions by one goroutine")
 }
